@@ -47,8 +47,11 @@ class Ctx:
 
     def floor(self, rule, what, count, floor):
         """fail closed when an extractor finds fewer instances than were counted by hand"""
-        self.inst(rule + ".FLOOR", what, count >= floor, None,
-                  "only %d instances of %s found, floor is %d (extractor no longer matches the code)" % (count, what, floor),
+        # the floor is a vacuity guard, not a frozen count: three quarters of the number counted by hand, so that merging or
+        # splitting a few sites in a behaviour-preserving edit does not trip it while an extractor that stops matching still does
+        need = max(1, (floor * 3) // 4)
+        self.inst(rule + ".FLOOR", what, count >= need, None,
+                  "only %d instances of %s found, floor is %d (three quarters of the %d counted by hand; the extractor no longer matches the code)" % (count, what, need, floor),
                   nontrivial=False)
 
     def note(self, msg):
